@@ -209,7 +209,7 @@ def normalize(W, copy=True):
         normalized connectivity matrix
     '''
     if copy:
-        W = W.copy()
+        W = W.astype(float)  # a float copy, whatever the dtype of the argument
     W /= np.max(np.abs(W))
     return W
 
